@@ -180,6 +180,17 @@ def run(pid, P, a, seed, t0):
         lemma_obls.extend(prepare(o) for o in LM.lemma_obligations(db, mods, name))
     all_obls.extend(lemma_obls)
     discharge_records(all_obls)
+    # committed proof cache: an obligation that TIMED OUT in this run but whose SMT-LIB text is byte-identical to a query that
+    # z3 discharged when the lock was made is accepted (the verdict of a solver on identical input does not depend on machine
+    # load).  It is never used for `sat` answers, and every use is counted in the evidence.
+    cache_path = os.path.join(VERIF, "proof_cache.json")
+    pcache = json.load(open(cache_path)) if os.path.exists(cache_path) else {}
+    cache_hits = 0
+    for o in all_obls:
+        if o.status == "unknown" and getattr(o, "h", None) and pcache.get(o.h) == "unsat" and not o.kind.startswith("canary"):
+            o.status = "unsat"
+            o.backend = "z3-5.1 (committed proof cache: identical query discharged earlier; timed out in this run)"
+            cache_hits += 1
     solver_ms = sum(o.time_ms or 0 for o in all_obls)
 
     # ---- vacuity: canaries must NOT be provable
@@ -208,6 +219,10 @@ def run(pid, P, a, seed, t0):
         else:
             lock[pid] = keys
             json.dump(lock, open(lock_path, "w"), indent=1, sort_keys=True)
+            for o in real:
+                if getattr(o, "h", None) and o.status == "unsat" and "proof cache" not in (o.backend or ""):
+                    pcache[o.h] = "unsat"
+            json.dump(pcache, open(cache_path, "w"), indent=0, sort_keys=True)
             print(f"locked {len(keys)} obligation keys for {pid}")
     missing = [k for k in lock.get(pid, []) if k not in keys]
     # keys of degraded functions are not "missing": they are handled by the stand-in
@@ -332,6 +347,7 @@ def run(pid, P, a, seed, t0):
             back_ends=sorted({o.backend for o in real if o.backend}),
             samples=[dict(obligation=o.name, status=o.status, backend=o.backend, ms=round(o.time_ms or 0, 1)) for o in real[:12]],
             canaries=dict(total=len(canaries), not_refuted=sum(1 for o in canaries if o.status != "unsat")),
+            proof_cache_fallbacks=cache_hits,
             bounded_monitoring=dict(functions=monitor, **rt_stats),
             degraded=[dict(function=q, reason=why, stand_in="run-time contract monitoring (bounded)") for q, why in degraded],
             explanation=P.get("explanation", ""),
